@@ -16,6 +16,9 @@ def one(args):
         env = dict(os.environ)
         env['MSA_OUT_SUFFIX'] = os.path.basename(t)
         r = subprocess.run([os.path.join(HERE, 'check'), pid, '--repo', t, '--no-evidence'], stdout=subprocess.PIPE, stderr=subprocess.STDOUT, text=True, cwd=HERE, env=env)
+        if r.returncode == 2 and 'Traceback' in r.stdout:
+            # an internal error under heavy parallel load (e.g. an extractor process killed): decide again once, serially
+            r = subprocess.run([os.path.join(HERE, 'check'), pid, '--repo', t, '--no-evidence'], stdout=subprocess.PIPE, stderr=subprocess.STDOUT, text=True, cwd=HERE, env=env)
         lines = [l for l in r.stdout.split('\n') if l.startswith('  ')]
         if '/equivalents/' in patch:
             st = 'SILENT-OK' if r.returncode == 0 else ('FALSE-ALARM' if r.returncode == 1 else 'BROKEN(exit %d)' % r.returncode)
